@@ -281,15 +281,26 @@ def D16d():
 
 
 def D16e():
+    """the decoder used for logging must stay in step with the pixel format in force (native, or the viewer's)"""
     srv, cl, tv, ts, rec = mkproxy()
     prun(srv, viewer_hs())
-    # server init in RGB32, then viewer selects BGR16, server sends 2x1 raw (4 bytes) then Bell
-    e0 = prun(cl, struct.pack("!HH", 4, 4) + RGB32 + struct.pack("!I", 1) + b"x")
-    prun(srv, struct.pack("!Bxxx", 0) + vclient.BGR16.to_bytes())
-    upd = struct.pack("!BxHHHHHi", 0, 1, 0, 0, 2, 1, 0) + b"\1\2\3\4" + b"\x02" + b"\x09"
+    pf8 = rfb.PixelFormat(8, 8, False, True, 7, 7, 3, 0, 3, 6)
+    prun(cl, struct.pack("!HH", 4, 4) + pf8.to_bytes() + struct.pack("!I", 1) + b"x")
+    upd = struct.pack("!BxHHHHHi", 0, 1, 0, 0, 4, 1, 0) + b"\1\2\3\4" + b"\x02"
     e = prun(cl, upd)
-    fwd = b"".join(t[1] for t in tv if t[0] == "v:write")
-    return e is not None or not fwd.endswith(upd), f"viewer selects 16-bit format, raw update + unknown msg -> {e}; forwarded={fwd.endswith(upd)}"
+    lg = cl.vnclog
+    insync = lg is None or (len(lg._packet) == 0 and lg._expected_handler == lg._handleConnection)
+    # and with a format selected by the viewer
+    srv2, cl2, tv2, ts2, rec2 = mkproxy()
+    prun(srv2, viewer_hs())
+    prun(cl2, struct.pack("!HH", 4, 4) + RGB32 + struct.pack("!I", 1) + b"x")
+    prun(srv2, struct.pack("!Bxxx", 0) + vclient.BGR16.to_bytes())
+    upd2 = struct.pack("!BxHHHHHi", 0, 1, 0, 0, 2, 1, 0) + b"\1\2\3\4" + b"\x02"
+    e2 = prun(cl2, upd2)
+    lg2 = cl2.vnclog
+    insync2 = lg2 is None or (len(lg2._packet) == 0 and lg2._expected_handler == lg2._handleConnection)
+    return not (insync and insync2) or e is not None or e2 is not None, \
+        f"logging decoder in step after a raw update: native 8-bit format {insync}, viewer-selected BGR16 {insync2}; exceptions {e} {e2}"
 
 
 def D17a():
